@@ -38,7 +38,7 @@ func HCodecRoundTrip() {
 // Encode returns an error and never a wrapped length.
 func HBigCodec() {
 	kind := vr.Param(0)
-	p := VGenPayload(kind, 9) // tier 9: the data field has Param(1) octets
+	p := VGenPayload(kind, 1000+vr.Param(1)) // the data field has Param(1) octets
 	m := &IKEMessage{IKEHeader: VGenHeader(), Payloads: IKEPayloadContainer{p}}
 	body, berr := p.Marshal()
 	b, err := m.Encode()
